@@ -49,6 +49,9 @@ pub fn log_hash(rec: &RunRecord) -> u64 {
 /// to place faults), then execute it and evaluate the monitors
 pub fn run_one(p: &dyn Profile, reg: &Reg, seed: u64, run: u64) -> RunOut {
     let mut rng = Rng::new(mix(seed, &format!("{}/{}", p.property(), p.name()), run));
+    // the chain's address format is one more thing that varies per run
+    let prefix = if rng.chance(1, 4) { *rng.pick(&crate::world::PREFIXES) } else { "cosmwasm" };
+    crate::world::set_prefix(prefix);
     let wp = p.gen_world(&mut rng, reg);
     let mut plan = base_plan(p, seed, run, &wp);
     let mut executions = 1;
